@@ -1,6 +1,5 @@
 import Ntrip.Proofs.SegmentRefine
 import Ntrip.Proofs.SegmentSpec
-import Ntrip.Guards.Framing
 /-!
 # C02 — stream segmentation is lossless
 
@@ -45,8 +44,5 @@ theorem segment_empty (crc : Bytes → Nat) : segment crc (In.ofBytes []) = [] :
 example : scan [0xD3] = .junk [0xD3] [] := by decide
 example : scan [0xD3, 0x00, 0x04, 0x4c] = .junk [0xD3, 0x00, 0x04, 0x4c] [] := by decide
 example : scan [0x24, 0x47, 0xD3, 0x00] = .junk [0x24, 0x47] [0xD3, 0x00] := by decide
-
-/-- Tie T1: guards and loop headers of the modelled code, regenerated from the source. -/
-theorem tie_guards_framing : type_of% Ntrip.Guards.framing := Ntrip.Guards.framing
 
 end Ntrip.C02
